@@ -674,6 +674,7 @@ pub fn property() -> Property {
         rule: "cases: (a) one real station TS without applications whose successor NS is played by the environment (answers the GAP poll as ready master, holds the token, returns it): ALL (TS, NS, HSA) triples with HSA <= 40 (quick) / <= 126 (thorough), each with gap factor 1 and a second factor from {3, 2, 5, 10, 30, 100}; generated cases with a newcomer appearing inside the GAP mid-sweep; all triples with HSA <= 14 (quick) / 30 (thorough) with a single stray character reaching the station between the poll in which it decided to pass the token on and its next poll. Oracle: status requests sent by the FDL go only to addresses strictly inside the cyclic interval (TS, NS) below HSA, never TS, NS or beyond; the post-claim scan polls the whole GAP at once up to the first responding master; afterwards at most one poll per token visit, targets ascend cyclically, a pause of G..G+2 visits between sweeps, every GAP address is swept, a ready newcomer becomes successor and gets the next token within |GAP|+G+3 visits. (b) status replies: generated listening / in-ring histories (token passes of a ring of 1..3 other stations, requests to TS and to other addresses from the predecessor and from others): replies only to requests addressed to TS, within the slot time, exactly one, state = in-ring iff is_in_ring(), else ready iff ready_for_ring() and the requester is the predecessor, else not ready; and, independent of the observers, never ready/in-ring before two complete rotations were witnessed, and ready to the predecessor after four. Non-trivial = every GAP case / every status case with at least one reply.",
         assumptions: vec![
             "application traffic is absent in this check (the property speaks about the station's own GAP maintenance)",
+            "gap_stray: a single stray character on the bus is no reason to skip, repeat or postpone a GAP poll; the sweep rules are applied unchanged",
             "N5 (DESIGN 7): a listening station that is ready moves to ActiveIdle after answering and then reports 'in ring' before it ever held the token; the oracle is phrased on is_in_ring(), which is what the station itself claims",
         ],
         subchecks: vec![
